@@ -248,4 +248,32 @@ example : D08_unionInVarPos exSigs (exArgs.setAt (.idx 0) (.union [tInt, tStr]))
 example : RetsNormal [⟨[], .union [tInt, .known .none]⟩] = true := by decide
 example : TupleSelf liveTable = true := tupleSelf_live
 
+/-- A judge small enough to evaluate by `decide`: classes by equality, `Any` on the right always
+accepted and recorded unless `Any` is expected. -/
+def toyJudge : Judge where
+  acc := fun e v => match e, v with
+    | .any, _ => true
+    | _, .any => true
+    | .typed c, .typed d => c == d
+    | _, _ => false
+  used := fun e v => match e, v with
+    | .any, _ => false
+    | _, .any => true
+    | _, _ => false
+
+/-- `(a: int) -> int`, `(a: str) -> str`, `(a: Any) -> bytes` called with an `Any` argument: the
+hypotheses of `overload_any_no_single` hold (three overloads accept, the first through Any, the
+second returns a different type) … -/
+def anySigs : List OSig :=
+  [⟨[⟨"a", .posOrKw, false, tInt⟩], tInt⟩, ⟨[⟨"a", .posOrKw, false, tStr⟩], tStr⟩,
+   ⟨[⟨"a", .posOrKw, false, .any⟩], .typed C.bytes⟩]
+example : NoUnion ⟨[.any], []⟩ = true := by decide
+example : (anySigs.filter (accepts toyJudge · ⟨[.any], []⟩)).length = 3 := by decide
+example : usedAnyIn toyJudge ⟨[⟨"a", .posOrKw, false, tInt⟩], tInt⟩ ⟨[.any], []⟩ = true := by decide
+example : deq tInt tStr = false := by decide
+/-- … and with the `Any`-annotated overload first, those of `overload_clean_first_wins`. -/
+example : usedAnyIn toyJudge ⟨[⟨"a", .posOrKw, false, .any⟩], .typed C.bytes⟩ ⟨[.any], []⟩ = false := by decide
+/-- `overload_first_match_of_noAnyMatch`: an Any-free call. -/
+example : ∀ s ∈ anySigs, usedAnyIn toyJudge s ⟨[tStr], []⟩ = false := by decide
+
 end Pya.C08
